@@ -300,22 +300,12 @@ fn clone_mirror(m: &ScratchpadMirror) -> ScratchpadMirror {
     ScratchpadMirror { address: m.address, data_encoding: m.data_encoding, encrypted_data: m.encrypted_data.clone(), counter: m.counter, signature: m.signature.clone() }
 }
 
-/// A result map whose iteration order is exactly `order` (std's HashMap order is a function of the map's
-/// random state: build maps until one iterates in the wanted order; the code under test iterates the same map).
 fn result_map_in_order(order: &[&Version], run: &Run) -> HashMap<XorName, (Record, HashSet<PeerId>)> {
-    let want: Vec<XorName> = order.iter().map(|v| XorName::from_content(&v.record.value)).collect();
-    for _ in 0..200_000 {
-        let mut m = HashMap::new();
-        for (i, v) in order.iter().enumerate() {
-            let mut holders = HashSet::new();
-            holders.insert(peer_id(60 + i as u8));
-            m.insert(XorName::from_content(&v.record.value), (v.record.clone(), holders));
-        }
-        if m.keys().cloned().collect::<Vec<_>>() == want {
-            return m;
-        }
+    let recs: Vec<Record> = order.iter().map(|v| v.record.clone()).collect();
+    match crate::client_rig::result_map_in_order(&recs) {
+        Some(m) => m,
+        None => run.machinery_error("could not build a result map with the wanted iteration order"),
     }
-    run.machinery_error("could not build a result map with the wanted iteration order")
 }
 
 fn judge_vault(run: &Run, delivered: &[&Version], how: &str, res: Option<Result<(Bytes, u64), String>>) {
